@@ -32,6 +32,7 @@ CONSTANTS
  CheckIdent = TRUE
  RelayOnce = TRUE
  CandsGuard = TRUE
+ DataGuard = TRUE
  SuspendJoin = FALSE
  JoinCacheFirst = TRUE
  AutoTimers = TRUE
